@@ -167,6 +167,7 @@ func runCheck(prop, repo, verif, tier string, workers int, only string, timeout 
 		v := knownSeen[id]
 		fmt.Printf("KNOWN-FINDING: property=%s %s %s (%s %s in %s)\n", prop, id, eng.known[id].What, v.Kind, v.Label, v.Harness)
 	}
+	var unconfirmed []string
 	validated := 0
 	if !noReplay {
 		n, err := crossCheck(eng, verif, repo, prop, results, seed)
@@ -176,9 +177,19 @@ func runCheck(prop, repo, verif, tier string, workers int, only string, timeout 
 		}
 		validated = n
 	}
+	unconfirmedOK := map[string]bool{}
+	for _, h := range harnessNotes(verif, "//verif:unconfirmed ", "") {
+		unconfirmedOK[strings.TrimSpace(h)] = true
+	}
 	for i, v := range allViol {
 		path := filepath.Join(verif, "replays", prop, fmt.Sprintf("%s-%d.json", v.Harness, i))
 		writeReplay(path, prop, v)
+		if unconfirmedOK[v.Harness] {
+			// exploration outside the claimed bound whose counterexamples cannot be enforced natively
+			fmt.Printf("  UNCONFIRMED (outside the claim): %s %s in %s choices=%v inputs=%s trace=%s\n", v.Kind, v.Label, v.Harness, v.Choices, jsonStr(v.Inputs), path)
+			unconfirmed = append(unconfirmed, fmt.Sprintf("%s %s %s", v.Harness, v.Kind, v.Label))
+			continue
+		}
 		status := "engine-replay"
 		if !noReplay {
 			ok, out, err := nativeReplay(verif, repo, prop, v, path)
@@ -203,7 +214,7 @@ func runCheck(prop, repo, verif, tier string, workers int, only string, timeout 
 		exit = 2
 	}
 	wall := time.Since(t0).Seconds()
-	writeEvidence(eng, verif, prop, tier, seed, results, validated, confirmed, inconclusive, wall, tLoad.Seconds(), ids)
+	writeEvidence(eng, verif, prop, tier, seed, results, validated, confirmed, inconclusive, wall, tLoad.Seconds(), ids, unconfirmed)
 	fmt.Printf("%s tier=%s exit=%d wall=%.1fs (load+init %.1fs) queries=%d sat=%d unsat=%d unknown=%d cache=%d model-hits=%d solver=%.1fs\n",
 		prop, tier, exit, wall, tLoad.Seconds(), gstats.queries, gstats.sat, gstats.unsat, gstats.unknown, gstats.cacheHits, gstats.modelHits, float64(atomic.LoadInt64(&gstats.nanos))/1e9)
 	return exit
@@ -254,7 +265,7 @@ func writeReplay(path, prop string, v *Violation) {
 	os.WriteFile(path, b, 0o644)
 }
 
-func writeEvidence(eng *Engine, verif, prop, tier string, seed int64, results []*RunResult, validated, confirmed int, inconclusive bool, wall, loadS float64, knownIDs []string) {
+func writeEvidence(eng *Engine, verif, prop, tier string, seed int64, results []*RunResult, validated, confirmed int, inconclusive bool, wall, loadS float64, knownIDs []string, unconfirmed []string) {
 	var paths, steps int64
 	var samples []interface{}
 	harn := []map[string]interface{}{}
@@ -312,6 +323,7 @@ func writeEvidence(eng *Engine, verif, prop, tier string, seed int64, results []
 		"solver":                        "z3 4.8.12 (-in, one process per worker)",
 		"load_and_init_s":               loadS,
 		"known_findings_seen":           knownIDs,
+		"unconfirmed_outside_claim":     unconfirmed,
 		"inconclusive":                  inconclusive,
 		"bounds":                        harnessBounds(verif, prop, tier),
 	}
